@@ -27,6 +27,99 @@ func namedIn(t types.Type, pkgPath string) (string, bool) {
 	return n.Obj().Name(), true
 }
 
+// sweepSendScope (C24): the precondition validMqtt of mqttSend is only
+// generated as an obligation at call sites inside functions that are checked
+// for the property. This sweep makes the selection itself an obligation:
+//
+//	sweep.send_in_scope.N   every call of mqttSend in package gateway lies in a
+//	                        function that is under (non-trusted) contract and
+//	                        carries the property's tag, or in an `inline`
+//	                        function all of whose callers (transitively) do.
+//
+// It also includes the broker-write sweep (nothing reaches the broker except
+// through mqttSend).
+func sweepSendScope(g *G, idx funcIndex, cs *contractSet, prop string) ([]*Obligation, []string, error) {
+	obls, as, err := sweepBrokerWrites(g, idx, cs, prop)
+	if err != nil {
+		return nil, nil, err
+	}
+	var keys []string
+	for k := range idx {
+		if strings.HasPrefix(k, "gateway.") {
+			keys = append(keys, k)
+		}
+	}
+	sort.Strings(keys)
+	callers := map[string][]*ssa.Function{} // static callee key -> calling functions
+	for _, k := range keys {
+		fn := idx[k]
+		for _, b := range fn.Blocks {
+			for _, in := range b.Instrs {
+				if ci, ok := in.(ssa.CallInstruction); ok {
+					if f := ci.Common().StaticCallee(); f != nil {
+						callers[funcKey(f)] = append(callers[funcKey(f)], fn)
+					}
+				}
+			}
+		}
+	}
+	var inScope func(fn *ssa.Function, depth int) bool
+	inScope = func(fn *ssa.Function, depth int) bool {
+		if depth > 8 {
+			return false
+		}
+		k := funcKey(fn)
+		if c := g.contracts[k]; c != nil && !c.Trusted && !c.Inline && !g.inlineSet[k] {
+			return hasTag(c.AllTags(), prop)
+		}
+		if g.inlineSet[k] || (g.contracts[k] != nil && g.contracts[k].Inline) {
+			cl := callers[k]
+			if len(cl) == 0 {
+				return false
+			}
+			for _, c := range cl {
+				if strings.HasSuffix(g.fset.Position(c.Pos()).Filename, "_test.go") {
+					continue
+				}
+				if !inScope(c, depth+1) {
+					return false
+				}
+			}
+			return true
+		}
+		return false
+	}
+	for _, k := range keys {
+		fn := idx[k]
+		if fn.Blocks == nil || strings.HasSuffix(g.fset.Position(fn.Pos()).Filename, "_test.go") {
+			continue
+		}
+		n := 0
+		for _, b := range fn.Blocks {
+			for _, in := range b.Instrs {
+				ci, ok := in.(ssa.CallInstruction)
+				if !ok {
+					continue
+				}
+				if f := ci.Common().StaticCallee(); f != nil && funcKey(f) == "gateway.(*handler1).mqttSend" {
+					ok := inScope(fn, 0)
+					pp := g.fset.Position(in.Pos())
+					o := &Obligation{Name: fmt.Sprintf("%s#sweep.send_in_scope.%d", funcKey(fn), n), Kind: "sweep", Fn: funcKey(fn), Tags: []string{prop},
+						Pos:  fmt.Sprintf("%s:%d", strings.TrimPrefix(pp.Filename, repoRoot+"/"), pp.Line),
+						Goal: TTrue, Solver: "syntactic", Result: "unsat",
+						Note: "mqttSend called from a function that is not checked for " + prop + " (no contract carrying the tag): the validity of the packet handed over is not an obligation anywhere"}
+					if !ok {
+						o.Goal, o.Result, o.Raw = TFalse, "sat", o.Note
+					}
+					obls = append(obls, o)
+					n++
+				}
+			}
+		}
+	}
+	return obls, as, nil
+}
+
 // sweepBrokerWrites generates, for every function of package gateway,
 //
 //	sweep.broker_write.N      every call of a Write method of a paho packet, of
